@@ -60,7 +60,8 @@ var c13EdgeLens = []int{0, 0, 1, 1, 2, 3,
 
 // C13Len draws a label/data length: concentrated on 0,1,2,3, 160..170,
 // 328..336 (one and two rate blocks with every offset the 2 framing bytes
-// and the 4-byte length prefix can introduce), small, or uniform <= 700.
+// and the 4-byte length prefix can introduce), small, uniform <= 700, or
+// (3%) up to about 25 blocks.
 // With huge set, 4% one of C13HugeLens (callers ration these).
 func C13Len(t *rapid.T, label string, huge bool) (int, string) {
 	k := rapid.IntRange(0, 99).Draw(t, label+"_lk")
@@ -71,8 +72,15 @@ func C13Len(t *rapid.T, label string, huge bool) (int, string) {
 		return rapid.SampledFrom(c13EdgeLens).Draw(t, label+"_le"), "edge"
 	case k < 70:
 		return rapid.IntRange(0, 40).Draw(t, label+"_ls"), "small"
-	default:
+	case k < 97:
 		return rapid.IntRange(0, 700).Draw(t, label+"_lu"), "uniform"
+	default:
+		// a few dozen blocks: sizes at which an implementation might switch to
+		// a bulk path
+		if rapid.Bool().Draw(t, label+"_lmk") {
+			return rapid.SampledFrom([]int{1023, 1024, 1025, 2047, 2048, 2049, 4096, 4097}).Draw(t, label+"_lm"), "mid"
+		}
+		return rapid.IntRange(701, 4200).Draw(t, label+"_lm"), "mid"
 	}
 }
 
